@@ -252,8 +252,105 @@ def translate(repo, consts):
               'iterator_new', 'poll_signal', 'has_signals', 'wait', 'sync_pending', 'forever', 'forever_next',
               'so_store', 'so_load', 'raw_store', 'raw_load', 'values']:
         out.append(coq_string_list('skel_' + k, sk[k]))
+    out += adapter(repo, 'signal-hook-tokio/src/lib.rs', 'tokio')
+    out += adapter(repo, 'signal-hook-async-std/src/lib.rs', 'asyncstd')
     return '\n'.join(out) + '\n'
 
+
+
+# ------------------------------------------------------------------------------------------
+# the asynchronous adapters (signal-hook-tokio, signal-hook-async-std)
+def match_arms(body, scrut_rx, fn):
+    """[(pattern, rhs)] of the `match <scrutinee matching scrut_rx> { ... }` in body"""
+    m = re.search(r'\bmatch\s+(' + scrut_rx + r')\s*\{', body, re.S)
+    if not m:
+        raise TranslateError('%s: match on %s not found' % (fn, scrut_rx))
+    i = m.end() - 1
+    inner = body[i + 1:match_brace(body, i)]
+    arms = []
+    for part in split_top(inner):
+        if not part.strip():
+            continue
+        if '=>' not in part:
+            raise TranslateError('%s: unrecognised match arm: %s' % (fn, norm(part)))
+        pat, rhs = part.split('=>', 1)
+        arms.append((norm(pat), norm(rhs)))
+    return norm(m.group(1)), arms
+
+
+def adapter(repo, path, prefix):
+    src = drop_hooks(strip(open(repo + '/' + path).read(), keep_strings=False))
+    t = src.find('#[cfg(test)]')
+    if t >= 0:
+        src = src[:t]
+    # ---- Stream::poll_next: exactly one poll_signal call, its closure, the PollResult -> Poll arms
+    _, pn, _ = find_fn(src, 'poll_next', owner=r'Stream for SignalsInfo')
+    calls = re.findall(r'\.\s*poll_signal\s*\(', pn)
+    scrut, arms = match_arms(pn, r'self\s*\.\s*0\s*\.\s*poll_signal\s*\((?:[^(){}]|\((?:[^(){}]|\([^(){}]*\))*\))*\)', prefix + ' poll_next')
+    mcl = re.search(r'poll_signal\s*\(\s*&mut\s*\|\s*(\w+)\s*\|\s*Self::has_signals\s*\(\s*(\w+)\s*,\s*ctx\s*\)\s*\)', scrut)
+    if not mcl or mcl.group(1) != mcl.group(2):
+        raise TranslateError('%s poll_next: the callback is not |read| Self::has_signals(read, ctx): %s' % (prefix, scrut))
+    pmap = []
+    for pat, rhs in arms:
+        mp = re.match(r'^PollResult::(\w+)(?:\s*\(\s*(\w+)\s*\))?$', pat)
+        if not mp:
+            raise TranslateError('%s poll_next: unrecognised pattern %s' % (prefix, pat))
+        var = mp.group(2)
+        if re.match(r'^Poll::Ready\s*\(\s*Some\s*\(\s*(\w+)\s*\)\s*\)$', rhs):
+            if re.match(r'^Poll::Ready\s*\(\s*Some\s*\(\s*(\w+)\s*\)\s*\)$', rhs).group(1) != var:
+                raise TranslateError('%s poll_next: %s yields something else than the polled value: %s' % (prefix, pat, rhs))
+            val = 'Ready(Some)'
+        elif re.match(r'^Poll::Ready\s*\(\s*None\s*\)$', rhs):
+            val = 'Ready(None)'
+        elif rhs == 'Poll::Pending':
+            val = 'Pending'
+        elif re.match(r'^panic!\s*\(', rhs):
+            val = 'panic'
+        else:
+            raise TranslateError('%s poll_next: unrecognised arm %s => %s' % (prefix, pat, rhs))
+        pmap.append((mp.group(1), val))
+    if sorted(k for k, _ in pmap) != ['Closed', 'Err', 'Pending', 'Signal']:
+        raise TranslateError('%s poll_next: arms %s' % (prefix, pmap))
+    # ---- has_signals: one poll_read of one byte, its Poll -> Result<bool> arms
+    _, hs, _ = find_fn(src, 'has_signals', owner=r'impl<E: Exfiltrator> SignalsInfo')
+    reads = re.findall(r'\.\s*poll_read\s*\(', hs)
+    scrut2, arms2 = match_arms(hs, r'Pin::new\s*\(\s*read\s*\)\s*\.\s*poll_read\s*\(\s*ctx\s*,[^(){}]*\)', prefix + ' has_signals')
+    if len(re.findall(r'\[\s*0u8\s*\]', hs)) != 1:
+        raise TranslateError('%s has_signals: the read buffer is not one byte' % prefix)
+    cmap = []
+    for pat, rhs in arms2:
+        if pat == 'Poll::Pending':
+            key, var = 'Pending', None
+        else:
+            mo = re.match(r'^Poll::Ready\s*\(\s*Ok\s*\(\s*(\(\s*\)|\w+)\s*\)\s*\)$', pat)
+            me = re.match(r'^Poll::Ready\s*\(\s*Err\s*\(\s*(\w+)\s*\)\s*\)$', pat)
+            if mo:
+                key, var = 'Ready(Ok)', mo.group(1)
+            elif me:
+                key, var = 'Ready(Err)', me.group(1)
+            else:
+                raise TranslateError('%s has_signals: unrecognised pattern %s' % (prefix, pat))
+        r = rhs.replace(' ', '')
+        if r in ('Ok(false)', 'Ok(true)'):
+            val = r
+        elif key == 'Ready(Ok)' and var and re.match(r'^Ok\(' + re.escape(var) + r'>0\)$', r):
+            val = 'Ok(n>0)'
+        elif key == 'Ready(Err)' and r == 'Err(%s)' % var:
+            val = 'Err'
+        else:
+            raise TranslateError('%s has_signals: unrecognised arm %s => %s' % (prefix, pat, rhs))
+        cmap.append((key, val))
+    if sorted(k for k, _ in cmap) != ['Pending', 'Ready(Err)', 'Ready(Ok)']:
+        raise TranslateError('%s has_signals: arms %s' % (prefix, cmap))
+    # the adapter builds the iterator once, at construction (SignalIterator::new performs one pending())
+    _, we, _ = find_fn(src, 'with_exfiltrator', owner=r'impl<E: Exfiltrator> SignalsInfo')
+    built = len(re.findall(r'OwningSignalIterator::new\s*\(', we))
+    pairs = lambda m: coq_list(['(%s, %s)' % (coq_string(a), coq_string(b)) for a, b in m])
+    return ['Definition %s_poll_map : list (string * string) :=\n  %s.' % (prefix, pairs(pmap)),
+            'Definition %s_cb_map : list (string * string) :=\n  %s.' % (prefix, pairs(cmap)),
+            'Definition %s_poll_signal_calls : nat := %d.' % (prefix, len(calls)),
+            'Definition %s_poll_read_calls : nat := %d.' % (prefix, len(reads)),
+            'Definition %s_iterator_built_in_constructor : nat := %d.' % (prefix, built)]
 
 def find_wake(pipe):
     """body of the free function `pub(crate) fn wake(pipe: RawFd, method: WakeMethod)` (not WakeFd::wake)"""
